@@ -870,6 +870,18 @@ pub trait PrettyPrint {
 
 // -----------------------------------------------------------------------------------------------
 
+/// Both are the same document object (or both absent).  `==` on documents compares their
+/// content, which also holds for two distinct documents that happen to look alike.
+fn same_document(a: &Option<XmlDocument>, b: &Option<XmlDocument>) -> bool {
+    match (a, b) {
+        (Some(a), Some(b)) => Rc::ptr_eq(&a.document, &b.document),
+        (None, None) => true,
+        _ => false,
+    }
+}
+
+// -----------------------------------------------------------------------------------------------
+
 trait HasChild {
     fn children(&self) -> Vec<XmlNode>;
 
@@ -1187,12 +1199,12 @@ impl NodeMut for XmlDocument {
         new_child: XmlNode,
         ref_child: Option<&XmlNode>,
     ) -> error::Result<XmlNode> {
-        if Some(self.clone()) != new_child.owner_document() {
+        if !same_document(&Some(self.clone()), &new_child.owner_document()) {
             return Err(error::DomException::WrongDocumentErr)?;
         }
 
         let value = if let Some(r) = ref_child {
-            if Some(self.clone()) != r.owner_document() {
+            if !same_document(&Some(self.clone()), &r.owner_document()) {
                 return Err(error::DomException::WrongDocumentErr)?;
             }
 
@@ -1216,7 +1228,7 @@ impl NodeMut for XmlDocument {
     }
 
     fn remove_child(&self, old_child: &XmlNode) -> error::Result<XmlNode> {
-        if Some(self.clone()) != old_child.owner_document() {
+        if !same_document(&Some(self.clone()), &old_child.owner_document()) {
             return Err(error::DomException::WrongDocumentErr)?;
         }
 
@@ -1588,12 +1600,12 @@ impl NodeMut for XmlAttr {
         new_child: XmlNode,
         ref_child: Option<&XmlNode>,
     ) -> error::Result<XmlNode> {
-        if self.owner_document() != new_child.owner_document() {
+        if !same_document(&self.owner_document(), &new_child.owner_document()) {
             return Err(error::DomException::WrongDocumentErr)?;
         }
 
         let value = if let Some(r) = ref_child {
-            if self.owner_document() != r.owner_document() {
+            if !same_document(&self.owner_document(), &r.owner_document()) {
                 return Err(error::DomException::WrongDocumentErr)?;
             }
 
@@ -1617,7 +1629,7 @@ impl NodeMut for XmlAttr {
     }
 
     fn remove_child(&self, old_child: &XmlNode) -> error::Result<XmlNode> {
-        if self.owner_document() != old_child.owner_document() {
+        if !same_document(&self.owner_document(), &old_child.owner_document()) {
             return Err(error::DomException::WrongDocumentErr)?;
         }
 
@@ -1763,7 +1775,7 @@ impl ElementMut for XmlElement {
     }
 
     fn set_attribute_node(&self, new_attr: XmlAttr) -> error::Result<Option<XmlAttr>> {
-        if self.owner_document() != new_attr.owner_document() {
+        if !same_document(&self.owner_document(), &new_attr.owner_document()) {
             return Err(error::DomException::WrongDocumentErr)?;
         }
 
@@ -1887,12 +1899,12 @@ impl NodeMut for XmlElement {
         new_child: XmlNode,
         ref_child: Option<&XmlNode>,
     ) -> error::Result<XmlNode> {
-        if self.owner_document() != new_child.owner_document() {
+        if !same_document(&self.owner_document(), &new_child.owner_document()) {
             return Err(error::DomException::WrongDocumentErr)?;
         }
 
         let value = if let Some(r) = ref_child {
-            if self.owner_document() != r.owner_document() {
+            if !same_document(&self.owner_document(), &r.owner_document()) {
                 return Err(error::DomException::WrongDocumentErr)?;
             }
 
@@ -1916,7 +1928,7 @@ impl NodeMut for XmlElement {
     }
 
     fn remove_child(&self, old_child: &XmlNode) -> error::Result<XmlNode> {
-        if self.owner_document() != old_child.owner_document() {
+        if !same_document(&self.owner_document(), &old_child.owner_document()) {
             return Err(error::DomException::WrongDocumentErr)?;
         }
 
